@@ -1062,7 +1062,8 @@ fn ref_version(t: &str) -> Option<(u64, u64, u64, Vec<Id>, Vec<Id>)> {
         while *i < c.len() && c[*i].is_ascii_digit() { *i += 1; }
         if *i == st { return None; }
         let s: String = c[st..*i].iter().collect();
-        let v: u128 = if s.len() > 30 { u128::MAX } else { s.parse().ok()? };
+        let sig = s.trim_start_matches('0');
+        let v: u128 = if sig.len() > 30 { u128::MAX } else if sig.is_empty() { 0 } else { sig.parse().ok()? };
         if v > 900_719_925_474_099 { None } else { Some(v as u64) }
     }
     fn ident(c: &[char], i: &mut usize) -> Option<Id> {
@@ -1126,6 +1127,18 @@ fn check_c05(level: u32, seed: u64) {
         c05_one(t);
     }
     for n in [240usize, 249, 250, 251, 252, 256, 257] { c05_one(&format!("1.2.3-{}", "a".repeat(n))); c05_one(&format!("1.2.3{}", " ".repeat(n))); c05_one(&format!("{}1.2.3", " ".repeat(n))); c05_one(&format!("1.2.3+{}", "0.".repeat(n / 2))); }
+    // zero padded components of 15..40 digits in each position (a digit-count limit shows here), and numbers at and beyond the word sizes
+    // whose low 64 / 32 bits are small (a truncating conversion shows here)
+    for w in 15usize..=40 {
+        for n in [0u64, 7, 10, 900719925474099] {
+            let z = format!("{:0>w$}", n, w = w);
+            c05_one(&format!("{}.2.3", z)); c05_one(&format!("1.{}.3", z)); c05_one(&format!("1.2.{}", z)); c05_one(&format!("1.2.3-{}", z)); c05_one(&format!("1.2.3+{}", z)); c05_one(&format!("1.2.{}-a+b", z));
+        }
+    }
+    for big in ["4294967296", "4294967297", "18446744073709551615", "18446744073709551616", "18446744073709551617", "18446744073709551623", "36893488147419103233", "340282366920938463463374607431768211456", "340282366920938463463374607431768211457",
+                "340282366920938463463374607431768211461", "900719925474100", "9007199254740991", "9007199254740992", "99999999999999999999", "1000000000000000000000000000000000000000000000000000000000001"] {
+        c05_one(&format!("{}.2.3", big)); c05_one(&format!("1.{}.3", big)); c05_one(&format!("1.2.{}", big)); c05_one(&format!("1.2.3-{}", big)); c05_one(&format!("1.2.3+{}", big)); c05_one(&format!("1.2.3-rc.{}", big)); c05_one(&format!("1.2.3+sha.{}.x", big));
+    }
     // every string up to length 5 over an alphabet of token classes, alone and after prefixes that reach the later states of the grammar
     let alpha: Vec<char> = "10.-+a vZ\u{141}\t9".chars().collect();
     let maxlen = if level > 0 { 6 } else { 5 };
